@@ -269,6 +269,9 @@ type LeaderEngine struct {
 	id   string // unique peer name: labels the goroutines the controller starts for this engine
 	ns   string // namespace of the controller ("default" unless the engine runs sessions on a fake clock)
 	sess *SessCtl
+	// set by ElectLagging (notif.go)
+	dbCommit    bool                  // commit() reads the DB's commit offset (see commit)
+	beforeFence func(*Follower) error // called by electLagging on the fed follower before it is fenced
 }
 
 type peerAddr string
@@ -372,7 +375,7 @@ func (e *LeaderEngine) commit() int {
 		return -2
 	}
 	c := int(st.CommitOffset)
-	if e.sess != nil {
+	if e.sess != nil || e.dbCommit {
 		// An RF=1 leader elected with a DB that lagged its log reports the DB's old commit offset until
 		// its next write (the quorum tracker is created before the tail is applied): what was applied is
 		// read from the DB.
